@@ -64,7 +64,9 @@ netget(const unsigned int terminate)
 			}
 		}
 	} else {
-		if ((linein.len > 3) && ((linein.s[3] == ' ') || (linein.s[3] == '-'))) {
+		/* a NUL byte inside the line would end up as separator in the status output */
+		if ((linein.len > 3) && ((linein.s[3] == ' ') || (linein.s[3] == '-')) &&
+				(memchr(linein.s, '\0', linein.len) == NULL)) {
 			int r = linein.s[0] - '0';
 			int q = linein.s[1] - '0';
 
